@@ -30,3 +30,10 @@ func init() {
 			"\t\tresult, err := db.Statement.ConnPool.ExecContext(db.Statement.Context, db.Statement.SQL.String(), db.Statement.Vars...)", "\t\tstmt := db.Statement\n\t\tresult, err := stmt.ConnPool.ExecContext(stmt.Context, stmt.SQL.String(), stmt.Vars...)"}}},
 	)
 }
+
+func init() {
+	addMutants(
+		Mutant{Name: "n48-commit-callback-error-snapshot", Property: "*", Rule: "NEUTRAL", Edits: []Edit{{"callbacks/transaction.go",
+			"\t\t\tif db.Error != nil {\n\t\t\t\tdb.Rollback()\n\t\t\t} else {\n\t\t\t\tdb.Commit()\n\t\t\t}", "\t\t\tfailed := db.Error\n\t\t\tif failed != nil {\n\t\t\t\tdb.Rollback()\n\t\t\t} else {\n\t\t\t\tdb.Commit()\n\t\t\t}"}}},
+	)
+}
